@@ -28,7 +28,7 @@ LEVEL = "fault_enumeration"
 TECHNIQUE = "runtime monitoring under fault enumeration: single faults injected into valid base scenarios, hooks on Model.update / Output.write, exit status of `python -m ladim`, output files inspected for records"
 LEVEL_TEXT = ("Each of ~30 single faults (forcing not covering the window, frames out of order within/across files, duplicated frame, missing start/stop/dt, stop on the wrong side, all "
               "releases before start / at or after stop, release table without a position, missing config/grid/forcing/release file, missing tracker/time/release/output/forcing section, "
-              "illegal subgrids) is injected into each of 8 base scenarios (quick) plus 60 random bases (thorough); the real start-up must refuse every one before the first step and write no record.")
+              "illegal subgrids) is injected into each of 8 base scenarios (quick) plus 400 random bases (thorough); the real start-up must refuse every one before the first step and write no record.")
 LEVEL_NOTE = "Single faults only. 'Refused' = SystemExit with a non-zero code or any other exception raised before the first Model.update; the fault-free base must complete, otherwise the case is void and not counted."
 RULE = ("case = (base, fault). Non-trivial: the base ran and the fault is really present in the files/configuration written (e.g. the unsorted frame times are read back); distinct by (base, fault).")
 MANDATORY = ["refused_before_first_step", "base_forward", "base_reversed", "base_multifile", "base_continuous", "subprocess_exit_status_checked", "fault_presence_verified"]
